@@ -987,9 +987,9 @@ class C02(Property):
         return True, ""
 
     def extra(self, ctx):
-        """thorough tier: free-running -race monitor of conservation / idle-never-sheds under real concurrency."""
-        if ctx.tier != "thorough":
-            return []
+        """free-running -race monitor of conservation / idle-never-sheds / one sample per resolution under real concurrency
+        (both tiers since round 4: it takes a few seconds and is the only thing that notices a lock or an atomic taken away -
+        mutation sweep C02-m006 / C02-m042: `defer rw.lock.Unlock()` run at once)."""
         rc, out, res = vlib.go_test_overlay("./core/load", OVERLAY, run="^TestVerifC02Race$", cases=[], tag="c02r",
                                             timeout=600, race=True, env={"VERIF_C02_RACE": "1"})
         ctx.checker_cmds.append("go test -race -run TestVerifC02Race ./core/load (overlay): 16 goroutines x 3000 Allow/Pass/Fail; 4000 rounds of two concurrent resolutions against a lock contender")
